@@ -441,10 +441,13 @@ def canopy_cover(
 
         # Actual (with water stress)
         NewCond.canopy_cover_adj = (1.72 * NewCond.canopy_cover) - (NewCond.canopy_cover ** 2) + (0.3 * (NewCond.canopy_cover ** 3))
+        # the adjusted cover is a fraction: the polynomial exceeds 1 for canopy cover above 0.966
+        NewCond.canopy_cover_adj = min(NewCond.canopy_cover_adj, 1.0)
         # Potential (without water stress)
         NewCond.canopy_cover_adj_ns = (
             (1.72 * NewCond.canopy_cover_ns) - (NewCond.canopy_cover_ns ** 2) + (0.3 * (NewCond.canopy_cover_ns ** 3))
         )
+        NewCond.canopy_cover_adj_ns = min(NewCond.canopy_cover_adj_ns, 1.0)
 
     else:
         # No canopy outside growing season - set various values to zero
